@@ -133,6 +133,11 @@ fn typed_sweep(out: &mut Out, grammar: &str) -> usize {
             let calls: Vec<Value> = chunk.iter().map(|_| json!(["typed", kind])).collect();
             run_history(out, &bytes, &calls);
             n += 1;
+            // the same values requested under a limit that admits exactly the word asked for (whether a word is a declared
+            // value must not depend on how many words may follow), and under a generous one
+            let calls: Vec<Value> = chunk.iter().enumerate().flat_map(|(j, _)| vec![json!(["set_limit", if j % 2 == 0 { 1 } else { 3 }]), json!(["typed", kind])]).collect();
+            run_history(out, &bytes, &calls);
+            n += 1;
         }
     }
     n
@@ -158,6 +163,20 @@ pub fn drive(args: &[String]) {
     }
     let n = arg_num(args, "--random", 0);
     let mut rng = Rng::new(arg_num(args, "--seed", 1));
+    if n > 0 {
+        // bulk requests at and around powers of two, under a limit that leaves a few words: the limit must be charged for
+        // every word of a bulk request exactly as for single words
+        for &k in &[8usize, 15, 16, 17, 31, 32, 33] {
+            for (extra, tail) in [(4usize, 0usize), (0, 2), (1, 0)] {
+                let bytes: Vec<u8> = (0..(k + 8) * 4 + tail).map(|j| (j % 251) as u8 + 1).collect();
+                let mut calls = vec![json!(["set_limit", k + extra]), json!(["words", k])];
+                for _ in 0..6 { calls.push(json!(["word"])); }
+                calls.push(json!(["clear_limit"])); calls.push(json!(["words", 2])); calls.push(json!(["set_limit", 1])); calls.push(json!(["bit64"])); calls.push(json!(["word"])); calls.push(json!(["word"]));
+                run_history(&mut out, &bytes, &calls);
+                histories += 1;
+            }
+        }
+    }
     for _ in 0..n {
         let (bytes, calls) = random_history(&mut rng);
         run_history(&mut out, &bytes, &calls);
